@@ -172,7 +172,7 @@ def check(run):
     from checks.common import far_diffuse_pair
     for k, R_ in enumerate((13.0, 13.6) if quick else (13.0, 13.6, 15.0, 12.95, 17.0, 20.0)):
         pair = far_diffuse_pair(rng, 0, k % 2, R_, tight=True)
-        pair = [p_.copy(exps=[p_.exps[0], core.snap(0.1 + 0.02 * (k % 3), 10)]) for p_ in pair]
+        pair = [p_.copy(exps=[p_.exps[0], core.snap(0.06 + 0.01 * (k % 3), 10)]) for p_ in pair]
         third = ShellSpec(0, [x + 0.7 for x in pair[0].center], [core.rand_exp(rng, 0.3, 1.5)], [[1.0]])
         one_case(run, ([third] + pair) if k % 3 != 2 else (pair + [third]), eri=True)
         run.count("contracted tight+diffuse shells on well separated atoms (%g bohr)" % R_)
